@@ -216,3 +216,48 @@ func TestRegressD8(t *testing.T) {
 		}
 	})
 }
+
+// D9 (fixed): an upstream aborting mid-body is not presented as a complete response.
+func TestRegressD9(t *testing.T) {
+	vlib.SetRule("C08", "TestRegressD9", "fixed regression case of finding D9: the upstream starts a 200 response without Content-Length, writes 10 of 2000 bytes, flushes and aborts (panic(http.ErrAbortHandler)); Go SDK and agent upstreams, entering at the upstream's node and at the other node")
+	vlib.Fixed(t, "C08", false, func(c *vlib.Case) {
+		for _, kind := range []string{"sdk-http", "agent-http"} {
+			cl, err := StartCluster(2, false, nil)
+			if err != nil {
+				c.Harnessf("start cluster: %v", err)
+			}
+			up, err := ConnectUpstream(context.Background(), cl.Nodes[0], "u0", "e1", kind, UpstreamOpts{})
+			if err != nil {
+				cl.Stop()
+				c.Harnessf("connect: %v", err)
+			}
+			up.Handler = func(u *Up, w http.ResponseWriter, r *http.Request, rec *Recorded) {
+				w.WriteHeader(200)
+				_, _ = w.Write(pat(10, 7))
+				if f, ok := w.(http.Flusher); ok {
+					f.Flush()
+				}
+				time.Sleep(30 * time.Millisecond)
+				panic(http.ErrAbortHandler)
+			}
+			ok := WaitRoutable(cl.Nodes[1], cl.Nodes[0], "e1", Deadline())
+			var results []*HTTPResult
+			if ok {
+				for _, entry := range cl.Nodes {
+					results = append(results, Get(entry, "e1", "host", "", nil))
+				}
+			}
+			up.Disconnect()
+			cl.Stop()
+			if !ok {
+				Missf(c, "C08: endpoint did not propagate")
+			}
+			for i, res := range results {
+				c.Stepf("%s via n%d: status=%d body=%d bytes err=%v", kind, i, res.Status, len(res.Body), res.Err)
+				if res.Err == nil && res.Status == 200 {
+					c.Fatalf("C08 fabricated success: the upstream (%s) aborted after 10 of 2000 bytes, yet the client (entering at n%d) received a complete, well-formed 200 response of %d bytes", kind, i, len(res.Body))
+				}
+			}
+		}
+	})
+}
